@@ -31,42 +31,15 @@ func registerExtraModels(P *Program) {
 	registerRevocationModels(P)
 	registerEncodingModels(P)
 	m := P.models
-	// keyshareUserCommitmentsHash: SHA-256 over the CBOR encoding of the challenge
-	// input: an injective function of its structure (uninterpreted hash).
-	m[TargetModule+".keyshareUserCommitmentsHash"] = func(ex *Exec, fn *ssa.Function, args []Value) (Value, bool) {
-		in := args[0].(Slice)
-		hargs := []BigVal{{I: smt.I64(int64(in.Len))}}
-		for i := 0; i < in.Len; i++ {
-			e := ex.load(in.A.E[in.Off+i]).(*Struct)
-			// fields: KeyID *T, Value, Commitment *big.Int, OtherCommitments []*big.Int
-			kid := e.F[0].(Pointer)
-			if kid.C == nil {
-				hargs = append(hargs, BigVal{I: smt.I64(0)})
-			} else {
-				switch k := kid.C.V.(type) {
-				case string:
-					hargs = append(hargs, BigVal{I: smt.I64(1)}, strCode(k))
-				case *smt.Term:
-					hargs = append(hargs, BigVal{I: smt.I64(1)}, BigVal{I: k})
-				default:
-					ex.unsupported("keyshare key id of type %T", kid.C.V)
-				}
-			}
-			for _, f := range []Value{e.F[1], e.F[2]} {
-				if p := f.(Pointer); p.C == nil {
-					hargs = append(hargs, BigVal{I: smt.I64(-1)})
-				} else {
-					hargs = append(hargs, p.C.V.(BigVal))
-				}
-			}
-			oc := e.F[3].(Slice)
-			hargs = append(hargs, BigVal{I: smt.I64(int64(oc.Len))})
-			for k := 0; k < oc.Len; k++ {
-				hargs = append(hargs, ex.argBig(ex.load(oc.A.E[oc.Off+k]), "OtherCommitments"))
-			}
-		}
-		h := ex.hashApply(fmt.Sprintf("keysharehash/%d", len(hargs)), hargs, 256)
-		return Tuple{ex.digestSlice(h, 32), Iface{}}, true
+	// cbor.Marshal: an injective structural encoding of the Go value (kinds, lengths,
+	// field names, strings, integers; gabi big.Int by magnitude, as its MarshalBinary does)
+	m["github.com/fxamacker/cbor.Marshal"] = func(ex *Exec, fn *ssa.Function, args []Value) (Value, bool) {
+		var es []derElem
+		ex.cborFlatten(args[0], args[0].(Iface).T, &es, 0)
+		a := &ArrObj{}
+		ex.derBlobs[a] = es
+		ex.stubs["cbor.Marshal is an injective structural encoding (kinds, lengths, field names, values); SHA-256 of it is an injective uninterpreted function"] = true
+		return Tuple{Slice{A: a, Len: 0, Cap: 0}, Iface{}}, true
 	}
 	m["crypto/subtle.ConstantTimeCompare"] = func(ex *Exec, fn *ssa.Function, args []Value) (Value, bool) {
 		x, y := args[0].(Slice), args[1].(Slice)
@@ -339,5 +312,80 @@ func registerEncodingModels(P *Program) {
 		}
 		ex.digestVals[arr] = h
 		return arr, true
+	}
+}
+
+func tagElem(tag string) derElem { return derElem{Kind: "tag", Val: strCode(tag).I} }
+
+// cborFlatten appends an injective flattening of v to es.
+func (ex *Exec) cborFlatten(v Value, t types.Type, es *[]derElem, depth int) {
+	if depth > 12 {
+		ex.unsupported("cbor.Marshal: value too deep")
+	}
+	switch x := v.(type) {
+	case Iface:
+		if x.T == nil {
+			*es = append(*es, tagElem("nil"))
+			return
+		}
+		ex.cborFlatten(x.V, x.T, es, depth+1)
+	case Pointer:
+		if x.C == nil {
+			*es = append(*es, tagElem("nil"))
+			return
+		}
+		if b, ok := x.C.V.(BigVal); ok {
+			*es = append(*es, tagElem("big"), derElem{"int", smt.Abs(b.I)})
+			return
+		}
+		var et types.Type
+		if pt, ok := t.Underlying().(*types.Pointer); ok {
+			et = pt.Elem()
+		}
+		ex.cborFlatten(ex.load(x.C), et, es, depth+1)
+	case *Struct:
+		st, _ := t.Underlying().(*types.Struct)
+		*es = append(*es, tagElem(fmt.Sprintf("struct:%d", len(x.F))))
+		for i, f := range x.F {
+			var ft types.Type
+			name := fmt.Sprintf("f%d", i)
+			if st != nil {
+				ft = st.Field(i).Type()
+				name = st.Field(i).Name() + "`" + st.Tag(i)
+			}
+			*es = append(*es, tagElem(name))
+			ex.cborFlatten(f, ft, es, depth+1)
+		}
+	case Slice:
+		var et types.Type
+		if t != nil {
+			if sl, ok := t.Underlying().(*types.Slice); ok {
+				et = sl.Elem()
+			}
+		}
+		if x.A == nil {
+			*es = append(*es, tagElem("nil"))
+			return
+		}
+		if d, ok := ex.digests[x.A]; ok {
+			*es = append(*es, tagElem("bytes"), derElem{"int", d})
+			return
+		}
+		*es = append(*es, tagElem(fmt.Sprintf("arr:%d", x.Len)))
+		for i := 0; i < x.Len; i++ {
+			ex.cborFlatten(ex.load(x.A.E[x.Off+i]), et, es, depth+1)
+		}
+	case string:
+		*es = append(*es, tagElem("str"), derElem{"int", strCode(x).I})
+	case *smt.Term:
+		if x.Sort == smt.Bool {
+			*es = append(*es, tagElem("bool"), derElem{"int", smt.Ite(x, smt.I64(1), smt.I64(0))})
+		} else {
+			*es = append(*es, tagElem("int"), derElem{"int", x})
+		}
+	case BigVal:
+		*es = append(*es, tagElem("big"), derElem{"int", smt.Abs(x.I)})
+	default:
+		ex.unsupported("cbor.Marshal of %T", v)
 	}
 }
